@@ -112,7 +112,7 @@ static int check_tables(int subset, const char *builder, int deep)
 	/* (3) usable by the real encoder: worst-case payload + designed inputs, level 0, all flush modes, 3 kernels: round trip */
 	static uint8_t *pay;
 	if (!pay)
-		pay = malloc(20000);
+		pay = malloc(80000);
 	int longest = 0, ll = 0;
 	for (int i = 0; i < 256; i++)
 		if (b->ll_len[i] > ll && (!subset || H.lit_len_histogram[i])) { ll = b->ll_len[i]; longest = i; }
@@ -124,6 +124,13 @@ static int check_tables(int subset, const char *builder, int deep)
 		for (int i = 0; i < 600; i++, pl++) pay[pl] = pay[pl - 300 + (i % 7 == 0)];
 		fill_pattern(pay + pl, 4096, PAT_TEXT, 3); pl += 4096;
 		for (int i = 0; i < 5000; i++, pl++) pay[pl] = pay[pl - 4097];
+		/* far matches of assorted lengths (13 distance extra bits + the longest length codes): the widest symbols the encoder must fit in its bit buffer */
+		{
+			static uint8_t *far;
+			if (!far) { far = malloc(60000); fill_farmix(far, 60000, 7); }
+			memcpy(pay + pl, far, 60000);
+			pl += 60000;
+		}
 	} else {
 		/* only literals that had non-zero counts may appear */
 		uint8_t alpha[256]; int na = 0;
@@ -222,7 +229,7 @@ int main(int argc, char **argv)
 {
 	v_init(argc, argv, "C18");
 	gs_init();
-	ebuf = malloc(70000); eout = malloc(GS_MAXOUT); cbuf = malloc(3 * 20000 + 4096);
+	ebuf = malloc(70000); eout = malloc(GS_MAXOUT); cbuf = malloc(3 * 80000 + 4096);
 	static const uint64_t W[8] = { 0, 1, 2, 1ull << 10, 1ull << 20, 1ull << 30, 1ull << 43, (1ull << 44) - 1 };
 	/* position menu: literal 0, 'a', 255; EOB 256; length 257, 264, 265, 284, 285; distance 0, 3, 4, 28, 29 (as 286+d) */
 	static const int menu[14] = { 0, 'a', 255, 256, 257, 264, 265, 284, 285, 286 + 0, 286 + 3, 286 + 4, 286 + 28, 286 + 29 };
